@@ -18,7 +18,7 @@ Not decided: more than 4 basins (no inductive argument); Boruvka's large-degree 
 """
 import itertools
 
-from ..interp import Interp, World, Obj, PyVec, ThrowEx, NOT_HANDLED, ElemRef, Sym
+from ..interp import Interp, World, Obj, PyVec, ThrowEx, NOT_HANDLED, ElemRef, Sym, OutOfRange
 from ..sir import AnalysisBroken
 from .routers import Table
 
@@ -204,6 +204,8 @@ def run(db, chk):
                                 bad2 = check_orientation(nb, o, 0)
                         except ThrowEx as ex:
                             bad1.append("%s threw %s" % (method, ex.text[:60]))
+                        except OutOfRange as ex:
+                            bad1.append("%s: out-of-bounds access: %s" % (method, str(ex)[8:120]))
                         label = "[%s] %s on basins graph %s weights %s" % (uname, method.split("_")[-1], list(es), list(ws))
                         for rid, b, key in (("C15-K1", bad1, "K1"), ("C15-K2", bad2, "K2")):
                             if b:
@@ -243,6 +245,8 @@ def run(db, chk):
                             bad, w = check_tree(nb, edges, o, "boruvka")
                         except ThrowEx as ex:
                             bad.append("threw %s" % ex.text[:60])
+                        except OutOfRange as ex:
+                            bad.append("out-of-bounds access: %s" % str(ex)[8:120])
                         if bad:
                             nbad4 += 1
                         if not bad or nbad4 <= 5:
@@ -374,6 +378,8 @@ def connect_rule(db, chk, uname, fns, rec):
                     it.call_fn(fn, o, [PyVec(list(elev))])      # twice: scratch reuse
                 except ThrowEx as ex:
                     bad.append("threw %s" % ex.text[:60])
+                except OutOfRange as ex:
+                    bad.append("out-of-bounds access on the second update: %s" % str(ex)[8:120])
                 if not bad:
                     got = {}
                     root = o.fields["m_root"]
